@@ -227,6 +227,7 @@ fn main() {
             let mut distinct = std::collections::HashSet::new();
             let (mut cases, mut loads, mut paths, mut collide, mut bad, mut multi, mut lua) = (0usize, 0usize, 0usize, 0usize, 0usize, 0usize, 0usize);
             let gen_n = n;
+            let fixed_nontrivial = first.iter().filter(|c| nontrivial(c)).map(hash_of).collect::<std::collections::HashSet<_>>().len();
             let all = first.into_iter().chain((0..gen_n).map(|i| {
                 if i % 3 == 2 {
                     let mut c = gen_path_case(&mut rng);
@@ -259,7 +260,7 @@ fn main() {
             for v in &out {
                 println!("{}", v);
             }
-            println!("{}", json!({"summary": {"cases": cases, "distinct_nontrivial": distinct.len(), "load_cases": loads, "path_cases": paths,
+            println!("{}", json!({"summary": {"cases": cases, "distinct_nontrivial": distinct.len(), "fixed_nontrivial": fixed_nontrivial, "load_cases": loads, "path_cases": paths,
                 "with_dotted_keys": collide, "with_bad_files": bad, "multi_file": multi, "with_lua": lua}}));
         }
         "one" => {
